@@ -201,7 +201,7 @@ theorem C04_sound_tree (S : Schema) (cv : Conv) (tag : Str) (x tl : Option Str) 
 /-- no child of the node carries the attribute's tag ⇒ the keyword collected for it is absent -/
 theorem not_given_of_no_child (S : Schema) (cv : Conv) (c : Cls) (hg : c.groom = none) (children : List Tree)
     (acc : Accum) (n : Str) (hno : ∀ ch ∈ children, lower ch.tag ≠ n)
-    (hf : foldChildren c children (childInsts S cv children) Accum.init = .ok acc) : ¬ Given acc.kwargs n := by
+    (hf : foldChildren c children (childInsts S cv children) Accum.init = .ok acc) : ¬ Present acc.kwargs n := by
   rintro ⟨v, hl, _⟩
   rcases foldChildren_origin c hg children _ Accum.init acc hf n v (lookup_mem hl) with h0 | ⟨ch, sub, idx, hmem, _, hn, _⟩
   · simp [Accum.init] at h0
@@ -220,7 +220,7 @@ theorem C04_reject_required_omitted_tree (S : Schema) (cv : Conv) (tag : Str) (x
   apply not_ok_error
   intro n hn
   -- the keyword route's verdict on whatever was collected
-  have key : ∀ args kw, ¬ Given kw a.name → ∃ e, construct S cv ci args kw = .error e := by
+  have key : ∀ args kw, ¬ Present kw a.name → ∃ e, construct S cv ci args kw = .error e := by
     intro args kw hng
     cases hst : Kind.subTarget a.kind with
     | some t =>
@@ -266,7 +266,7 @@ theorem given_of_child (S : Schema) (cv : Conv) (c : Cls) (hg : c.groom = none) 
     (pre post : List Tree) (ch : Tree) (acc : Accum) (a : Attr) (v : Node)
     (ha : a ∈ c.spec) (hname : a.name = lower ch.tag) (hdot : '.' ∉ ch.tag)
     (hl : a.kind.isList = false) (hu : a.kind.isUnsupported = false)
-    (hv : childValue ch (fromEtree S cv ch) = .ok v) (hnn : notNone v = true)
+    (hv : childValue ch (fromEtree S cv ch) = .ok v) (hnn : given v = true)
     (hf : foldChildren c (pre ++ ch :: post) (childInsts S cv (pre ++ ch :: post)) Accum.init = .ok acc) :
     Given acc.kwargs a.name := by
   rw [childInsts_append] at hf
@@ -290,10 +290,10 @@ theorem C04_reject_mutex_two_tree (S : Schema) (cv : Conv) (tag : Str) (x tl : O
     (hnd : (c.spec.map (·.name)).Nodup) (hgrp : g ∈ c.optMutex ∨ g ∈ c.reqMutex)
     (ha1 : a1 ∈ c.spec) (hn1 : a1.name = lower ch1.tag) (hd1 : '.' ∉ ch1.tag)
     (hl1 : a1.kind.isList = false) (hu1 : a1.kind.isUnsupported = false)
-    (hv1 : childValue ch1 (fromEtree S cv ch1) = .ok v1) (hnn1 : notNone v1 = true)
+    (hv1 : childValue ch1 (fromEtree S cv ch1) = .ok v1) (hnn1 : given v1 = true)
     (ha2 : a2 ∈ c.spec) (hn2 : a2.name = lower ch2.tag) (hd2 : '.' ∉ ch2.tag)
     (hl2 : a2.kind.isList = false) (hu2 : a2.kind.isUnsupported = false)
-    (hv2 : childValue ch2 (fromEtree S cv ch2) = .ok v2) (hnn2 : notNone v2 = true)
+    (hv2 : childValue ch2 (fromEtree S cv ch2) = .ok v2) (hnn2 : given v2 = true)
     (hm1 : a1.name ∈ g) (hm2 : a2.name ∈ g) (hne : a1.name ≠ a2.name) :
     ∃ e, fromEtree S cv (.node tag x tl (pre ++ ch1 :: (mid ++ ch2 :: post))) = .error e := by
   apply not_ok_error
@@ -338,7 +338,7 @@ theorem C04_reject_reqmutex_none_tree (S : Schema) (cv : Conv) (tag : Str) (x tl
     | ok acc =>
       simp only [hfold, bind, Except.bind] at hn
       obtain ⟨e, he⟩ := C04_reject_reqmutex_none S cv ci c acc.args acc.kwargs g hc hgrp
-        (fun m hm => not_given_of_no_child S cv c hg children acc m (hno m hm) hfold)
+        (fun m hm hgv => not_given_of_no_child S cv c hg children acc m (hno m hm) hfold (Present_of_Given hgv))
       rw [hn] at he; cases he
 
 end Ofx.Agg
